@@ -24,7 +24,8 @@ SAMPLES = []
 
 # ---- the plain callables -------------------------------------------------------------------------------------------------
 def mk(a):
-    return {"v": a, "t": True, "f": False, "p": (a, ("x", a))}
+    # ("p", 0) is ONE key (a tuple): r[("p", 0)] is not r["p"][0]
+    return {"v": a, "t": True, "f": False, "p": (a, ("x", a)), ("p", 0): ("tuple-key", a)}
 
 
 def pair(a, b):
@@ -44,7 +45,7 @@ def kwop(a, k=("kdef",)):
 
 
 OPS = {"mk": (mk, 1), "pair": (pair, 2), "trip": (trip, 1), "one": (one, 0), "kwop": (kwop, 1)}
-INDEXABLE = {"mk": [["v"], ["t"], ["f"], ["p"], ["p", 0], ["p", 1]], "trip": [[0], [1], [2], [1, 1]], "pair": [[0], [1], [2]], "kwop": [[1], [2]], "one": [[0]]}
+INDEXABLE = {"mk": [["v"], ["t"], ["f"], ["p"], ["p", 0], ["p", 1], [("p", 0)], [("p", 0), 1]], "trip": [[0], [1], [2], [1, 1]], "pair": [[0], [1], [2]], "kwop": [[1], [2]], "one": [[0]]}
 FLAG_KEYS = {"mk": [(["t"], True), (["f"], False), (["v"], None)]}
 
 
